@@ -54,6 +54,7 @@ def cases(tier, base_seed):
         spec = gen.gen_frame_spec(rng, n, kinds=[rng.choice(models.KINDS) for _ in range(ngeo)],
                                   index_kind="default")
         geo = [c["name"] for c in spec["cols"]]
+        loose = rng.random() < 0.12 and gen.loosen_rings(spec, rng)
         two = rng.random() < 0.4 and n >= 4
         half = n // 2
         writes = []
@@ -87,7 +88,7 @@ def cases(tier, base_seed):
             sim.update({"fine": True, "workers": rng.choice((2, 4, 8)),
                         "strategy": rng.choice(("random", "pct"))})
         yield {"seed": seed, "frame": spec, "writes": writes, "reads": reads, "rewrite": rewrite,
-               "plain": plain, "regen": regen, "sim": sim, "store": e1.gen_store_cfg(rng)}
+               "plain": plain, "regen": regen, "loose_rings": bool(loose), "sim": sim, "store": e1.gen_store_cfg(rng)}
         i += 1
 
 
@@ -162,6 +163,8 @@ def _overlaps(ext, box):
 def _drive(case, root, fs, probes, sig):
     base = os.path.join(root, "sets")
     os.makedirs(base)
+    if case.get("loose_rings"):
+        probes["polygon_ring_outside_first_ring"] = 1
     _generation(case, case["frame"], base, fs, probes, sig, 0)
     if case.get("regen"):
         # a second generation of every dataset, written over the first at the SAME paths after
@@ -320,7 +323,7 @@ def _generation(case, spec, base, fs, probes, sig, generation):
         if keep:
             _check_bounds(pr, exts, keep, "read_parquet_dask(bounds=)", sig)
         # 3. end to end: no intersecting row is lost
-        if box[2] > box[0] and box[3] > box[1]:
+        if box[2] > box[0] and box[3] > box[1] and not case.get("loose_rings"):
             probes["end_to_end_cx"] = 1
             sel = _guard("pruned.cx", lambda: pr.cx[qbox[0]:qbox[2], qbox[1]:qbox[3]].compute(), sig)
             g = Counter(models.frame_records(sel, with_index=False))
@@ -367,7 +370,7 @@ def _plain_mixed_read(case, spec, geo, base, fs, stored, first_geo, probes, sig)
                                     for a, b in zip(pub, exts)):
         raise Bad("bounds-mismatch@mixed-metadata", f"partition_bounds {pub} != true extents {exts}")
     box = case["plain"]["box"]
-    if box[2] > box[0] and box[3] > box[1]:
+    if box[2] > box[0] and box[3] > box[1] and not case.get("loose_rings"):
         sel = _guard("cx", lambda: ddf.cx[box[0]:box[2], box[1]:box[3]].compute(), sig)
         g = Counter(models.frame_records(sel[list(gdf.columns)], with_index=False))
         w = Counter()
